@@ -2,6 +2,7 @@
 import re
 
 from .. import a10
+from .. import a9
 from .. import a5
 from .. import a7
 from .. import rules as R
@@ -15,7 +16,8 @@ EXPLANATION = (
     "writers of both columns call their encoder; (R3) the lone '.' escape is present in both string writers; (R4) the "
     "variant span has one provided implementation that neither record type overrides."
     " (R5) reused destination: every entry->Ok path of the eager VCF parser overwrites or clears each RecordBuf column (samples are reset element-wise and are tabled as not decided); (R6) append-buffer discipline for all VCF line readers."
-    " (R7) UTF-8 validation per fill_buf window in the lazy record reader carries an incomplete trailing character over to the next window.")
+    " (R7) UTF-8 validation per fill_buf window in the lazy record reader carries an incomplete trailing character over to the next window."
+    " (R8) the VCF-text header sub-reader (vcf, bcf; sync and async) agrees with the majority of the ten copies of that state machine.")
 ASSUMPTIONS = ["percent-encoding crate encodes exactly the bytes in the AsciiSet (plus non-ASCII) and decodes %XX",
                "reader delimiter constants are the named DELIMITER/SEPARATOR consts of the reader modules (floor-checked)"]
 NOT_DECIDED = ["value equality over the VCF grammar (numbers, floats, genotype strings, header records)",
@@ -154,6 +156,10 @@ def run(ctx):
                           "that straddles a buffer refill boundary makes a valid line fail, depending only on how the stream chunks its reads" % f8.root,
                           f8.loc(s8["block"]))
     ctx.count("utf8_per_window_sites", n8)
+
+    ctx.rule("C09.R8", "A9 cross-crate siblings: the VCF-text header sub-reader (vcf, bcf; sync and async) performs the same state updates per trait "
+                       "method as all ten copies of that state machine")
+    a9.header_reader_agreement(ctx, "C09.R8", r"noodles_(vcf|bcf)::", 12)
 
     ctx.rule("C09.R4", "impl table: variant_end / variant_span are single provided implementations (lazy and eager share them)")
     tr = fb.traits.get(V + "variant::record::Record")
